@@ -9,7 +9,7 @@ R = "/tmp/repo-seed"
 OUT = "/tmp/seed-out"
 subprocess.run(["git", "-C", "/repo", "worktree", "remove", "--force", R], capture_output=True)
 subprocess.run(["git", "-C", "/repo", "worktree", "add", "--detach", R, "HEAD"], capture_output=True, check=True)
-env = dict(os.environ, EVYVC_REPO=R, EVYVC_OUT=OUT)
+env = dict(os.environ, EVYVC_REPO=R, EVYVC_OUT=OUT, EVYVC_FAST="1")
 rows = []
 for d in sorted(glob.glob(f"{V}/seeded/*/")):
     sid = os.path.basename(d.rstrip("/"))
